@@ -166,7 +166,8 @@ func propKey(db *dyn.DB, s ispec, row map[string]val.Val) string {
 				}
 			}
 			if found == "\x00zero" {
-				found = val.ZeroAtom(db.Spec.Table("T").Col(c.Col).VT).Key()
+				// a map without the key has no value for it (not the zero value a map holding the key may have)
+				found = "<nil>"
 			}
 			parts = append(parts, found)
 		case v.K == 'o' && !v.Has:
